@@ -18,6 +18,7 @@ type c02X struct {
 	ReadAll   bool
 	LimitKind int  // 0 none, 1 below, 2 at, 3 above
 	Stall     bool // the client pauses inside the message for longer than ReadTimeout
+	Panic     bool // the backend panics inside Data (at entry, after reading a part, or at the end)
 }
 
 var lookAlikes = []string{"\n.\n", "\n.\r\n", "\r\n.\n", "\r.\r", "\r\n.\rX", "\r\n.x\r\n", "\r\n..\r\n", "\n.\r", "\r.\r\n", ".\n"}
@@ -91,6 +92,12 @@ func genC02(t *Tape, tier string) *Scenario {
 		dp.V = Verdict{Kind: vSMTP, Code: 554, Enh: [3]int{5, 6, 0}, Msg: "rejected by content filter"}
 	case 2:
 		dp.V = Verdict{Kind: vPlain, Msg: "disk full"}
+	}
+	if t.Chance(1, 12) {
+		// fault stratum: the backend panics with a part of the message unread
+		x.Panic = true
+		dp.V = Verdict{Kind: vPanic, Msg: "in Data"}
+		dp.PanicWhen = t.Intn(3)
 	}
 	if sc.BE.Flavor == beLMTP && t.Chance(1, 3) {
 		dp.Statuses = []StatusCall{{Addr: "ok-r0@b.example", V: Verdict{Kind: vSMTP, Code: 452, Enh: [3]int{4, 2, 2}, Msg: "mailbox full"}, When: t.Intn(3)}}
@@ -180,8 +187,8 @@ func checkC02(sc *Scenario, h *History) []Violation {
 			return out
 		}
 	}
-	if x.Stall {
-		// After the injected timeout only "never executed as a command" is judged.
+	if x.Stall || x.Panic {
+		// After the injected timeout or panic only "never executed as a command" is judged.
 		return out
 	}
 	replies, _ := parseReplies(ch.Recv)
@@ -280,6 +287,12 @@ func classifyC02(sc *Scenario, h *History, st *Stats) string {
 	if x.Stall {
 		st.Faults["client_stalls_past_read_deadline_inside_message"]++
 	}
+	if x.Panic && len(evs) == 1 && evs[0].Panicked {
+		st.Faults["backend_panics_inside_Data"]++
+		if len(evs[0].Read) < len(x.Want) {
+			st.Faults["backend_panics_with_message_text_unread"]++
+		}
+	}
 	for _, s := range sc.Conns[0].Steps {
 		if s.Kind == kBody && s.Glue {
 			st.Probes["marker_shares_segment_with_end_marker"]++
@@ -321,7 +334,7 @@ func init() {
 		Real:        []string{"smtp.Server.Serve/handleConn", "smtp.Conn command loop, handleData, handleDataLMTP", "dataReader", "lineLimitReader", "net/textproto", "bufio"},
 		Stub:        []string{"net.Listener (SimListener)", "net.Conn (SimConn)", "Backend/Session/LMTPSession (SimBackend)", "clock (synctest)", "SMTP client (raw driver)"},
 		Assumptions: []string{"acceptance of the message itself is not judged here (C06 does)", "go-smtp built with go1.26.8"},
-		Required:    []string{"bait_command_in_body", "terminator_lookalike_in_body", "message_over_limit_lmtp", "client_stalls_past_read_deadline_inside_message", "marker_shares_segment_with_end_marker", "backend_left_message_unread"},
+		Required:    []string{"bait_command_in_body", "terminator_lookalike_in_body", "message_over_limit_lmtp", "client_stalls_past_read_deadline_inside_message", "marker_shares_segment_with_end_marker", "backend_left_message_unread", "backend_panics_with_message_text_unread"},
 		QuickRuns:   300000, ThoroughRuns: 6000000,
 	})
 }
